@@ -91,7 +91,8 @@ def case_wt(rec, c):
     import pyPRISM
     calc = pyPRISM.calculate
     eta, nl = c['eta'], c['levels']
-    L0 = 128
+    L0 = c.get('base', 128)
+    RMAX = 0.2 * L0                    # coarsest spacing 0.2 for every base length (128 -> r_max 25.6)
     dom0 = build.make_domain({'length': L0, 'dr': RMAX / L0})
     k0 = np.array(dom0.k[:40])
     r0 = np.array(dom0.r)
@@ -168,8 +169,8 @@ def case_wt(rec, c):
         if len(es) >= 2 and not es[-1] <= 0.25 * es[0]:
             rec.fail(c, 'PY hard spheres eta=%g: the %s error does not shrink under refinement (coarsest %.3g, finest %.3g)' % (eta, nm, es[0], es[-1]),
                      tags('shrink', 'WT-' + nm))
-    rec.note('wt_errors_eta_%g' % eta, {k: ['%.3g' % x for x in v] for k, v in errs.items()})
-    rec.note('wt_error_over_bound_eta_%g' % eta, {k: ['%.2f' % x for x in v] for k, v in margins.items()})
+    rec.note('wt_errors_eta_%g_base_%d' % (eta, L0), {k: ['%.3g' % x for x in v] for k, v in errs.items()})
+    rec.note('wt_error_over_bound_eta_%g_base_%d' % (eta, L0), {k: ['%.2f' % x for x in v] for k, v in margins.items()})
     rec.trace()
 
 
@@ -296,6 +297,10 @@ def run(rec, tier, seed):
         if cl == 'MSAhc' and p not in ref.HARD_CORE_POTENTIALS:
             continue
         cases.append({'kind': 'dilute', 'potential': p, 'closure': cl, 'kT': kT, 'dr': dr})
+    # the same ladders on lengths that are not powers of two: 7*2^4, prime, 11^2, 2^3*3*5 (r_max = 0.2*base)
+    for base in ([112, 103] if quick else [112, 103, 121, 120, 125]):
+        for e in ([0.15, 0.4] if quick else [0.1, 0.2, 0.3, 0.4, 0.45]):
+            cases.append({'kind': 'wt', 'eta': e, 'levels': 5, 'base': base})
     # the same systems reached through an edit history (kT assigned after construction, list keys, overwrites)
     cases.append({'kind': 'wt', 'eta': 0.3, 'levels': 4, 'style': 'edits'})
     for p, cl in ([('LJ', 'HNC'), ('HCLJ', 'PY')] if quick else [('LJ', 'HNC'), ('HCLJ', 'PY'), ('EXP', 'MSAhc'), ('WCA', 'PY'), ('HS', 'HNC')]):
